@@ -36,7 +36,8 @@ def rfAttr (w : World) : R.RFun := fun x => match x with
     | some p => s!"a{p.2}"
     | none => "a-"
 def rfDup : R.RFun := fun x => match x with | none => "none" | some v => s!"w{v % 2}"   -- not injective
-def sortKey (k : Nat) : Option VId → Nat := fun x => (codeOf x * (k + 1)) % 7
+/-- sort keys of the protocol; key 1 maps many vertices to the same value (ties: `sorted` is stable) -/
+def sortKey (k : Nat) : Option VId → Nat := fun x => (codeOf x * (k + 1)) % (if k == 1 then 3 else 7)
 
 def pumlOpts : Nat → R.POpts
   | 1 => { vopt := fun c => match c with
@@ -168,6 +169,19 @@ def parseAttrs (s : String) : Option (List (Nat × Nat)) :=
     | _ => none) s
 
 def errLine (e : Err) : String := "err " ++ e.name
+
+/-- `make_pyvis_net(uni, rvfunc, refunc)` rendered as an answer line -/
+def pyvisAnswer (w : World) (u re : String) : Option String :=
+  match parseId 'V' u with
+  | some u =>
+    if !(w.isUni u) then none else
+    match R.pyvisNet w u (fun v => s!"v{v}") (if re == "-" then none else some fun l => s!"e{l}") with
+    | .error e => some (errLine e)
+    | .ok (nodes, edges) =>
+      some ("ok nodes=" ++ showList (fun (p : Nat × String) => s!"{p.1}:{p.2}") nodes ++ " edges=" ++
+        showList (fun (e : R.PEdge) => s!"{e.src}{if e.arrows then ">" else "-"}{e.dst}:{e.title.getD "-"}") edges)
+  | none => none
+
 
 def showAns : Ans → String
   | .ok => "ok"
@@ -326,16 +340,9 @@ def step (st : DState) (line : String) : DState × String :=
       | .ok (some (decls, rels)) =>
         (st, "ok decls=" ++ showList id decls ++ " rels=" ++ showList id (rels.mergeSort (· ≤ ·)))
     | _, _ => bad
-  | ["pyvis", u, re] =>
-    match parseId 'V' u with
-    | some u =>
-      if !(w.isUni u) then bad else
-      match R.pyvisNet w u (fun v => s!"v{v}") (if re == "-" then none else some fun l => s!"e{l}") with
-      | .error e => (st, errLine e)
-      | .ok (nodes, edges) =>
-        (st, "ok nodes=" ++ showList (fun (p : Nat × String) => s!"{p.1}:{p.2}") nodes ++ " edges=" ++
-          showList (fun (e : R.PEdge) => s!"{e.src}{if e.arrows then ">" else "-"}{e.dst}:{e.title.getD "-"}") edges)
-    | none => bad
+  | ["pyvis", u, re] => match pyvisAnswer w u re with | some a => (st, a) | none => bad
+  | ["pyvisd", u, re] => match pyvisAnswer w u re with | some a => (st, a) | none => bad   -- network_kwargs with directed=True: same network
+  | ["pyvisc", u, re] => match pyvisAnswer w u re with | some a => (st, a) | none => bad   -- pyvis_render_customizable: same network
   | ["getlinks", v] =>
     match parseId 'V' v with
     | some v => if !(w.vOK v) then bad else (st, "ok " ++ showList (fun l => s!"L{l}") (w.links v))
